@@ -1562,7 +1562,21 @@ template<class V, class T> struct VecRun
         case V_WRITE_MIT:
           if (A.mOk && (!A.copiedSince || c.iterAfterCopy))
           {
-            if (A.copiedSince) { hazard = true; ctx.label("write-through-iterator-taken-before-copy"); }
+            if (A.copiedSince)
+            {
+              // the kept iterator may dangle by now (the handle detached from the storage and every other owner released it):
+              // the write is executed only while the storage it points into is still owned by a live handle
+              const T* p = &*A.mit;
+              bool alive = false;
+              for (auto& H : hs)
+              {
+                const V& cv = *H.v;
+                if (!cv.empty() && p >= cv.data() && p < cv.data() + cv.size()) alive = true;
+              }
+              if (!alive) { ctx.label("iterator-kept-across-copy:dangling-not-written"); A.mOk = false; break; }
+              hazard = true;
+              ctx.label("write-through-iterator-taken-before-copy");
+            }
             *A.mit = x;
             A.m[A.mpos] = x;
             A.cOk = false;
